@@ -65,13 +65,10 @@ func c15Bytes(a, b []byte) bool {
 // message as it was; otherwise it produced nothing.
 //
 //verif:entry tier=quick,thorough
-//verif:bound header: every id/flag/opcode and rcode as any int (negative and >4095 included); 1 question (quick) / 1-2 (thorough), answer none / A / CNAME+A with symbolic ttl/class/address over concrete compressible names; additional none / OPT / two OPTs / OPT aliased in answer (thorough) with symbolic size/ttl and 0-1 local option of 2 symbolic bytes; Compress on/off; pool state: fresh or dirty buffer (0xEE fill, stale OPT and shim)
+//verif:bound header: every id/flag/opcode and rcode as any int (negative and >4095 included); 1 question (quick) / 1-2 (thorough), answer none / A / CNAME+A with symbolic ttl/class/address over concrete compressible names; additional none / OPT / two OPTs / the selected OPT aliased (same pointer) in the answer or authority section with symbolic size/ttl and 0-1 local option of 2 symbolic bytes; Compress on/off; pool state: fresh or dirty buffer (0xEE fill, stale OPT and shim)
 func VerifC15_PackParity() {
 	m := c15Msg()
-	extra := 3
-	if vTier() > 0 {
-		extra = 4
-	}
+	extra := 4
 	var opt *dns.OPT
 	switch vChoice("extra", extra) {
 	case 1:
@@ -84,7 +81,11 @@ func VerifC15_PackParity() {
 	case 3:
 		opt = c15OPT("opt")
 		m.Extra = []dns.RR{opt}
-		m.Answer = append(m.Answer, opt)
+		if vBool("alias.in.authority") {
+			m.Ns = append(m.Ns, opt)
+		} else {
+			m.Answer = append(m.Answer, opt)
+		}
 	}
 	if vBool("pool.dirty") {
 		st := new(packState)
